@@ -105,6 +105,9 @@ func (w WLCase) Build() (*Built, error) {
 			return s, spg.FloatE(ent)
 		}
 	}
+	if w.SepKind != "char" {
+		rec.SeparatorChar = w.SepChar // both fields set: the function is documented to win
+	}
 	if inner != nil {
 		log := b.Log
 		rec.SeparatorFunc = func() (string, spg.FloatE) {
@@ -144,7 +147,7 @@ func genWLCase(r *gen.R, o wlOpts) WLCase {
 	w.Length = r.Range(1, o.maxLen)
 	w.Scheme = schemes[r.Intn(len(schemes))]
 	if o.allowUnknownScheme && r.Chance(1, 12) {
-		w.Scheme = []string{"", "ALL", "First", "every", "rand"}[r.Intn(5)]
+		w.Scheme = []string{"", "ALL", "First", "every", "rand", " one", "RANDOM", "None", "one ", "all\n"}[r.Intn(10)]
 	}
 	switch r.Intn(8) {
 	case 0:
@@ -182,6 +185,9 @@ func genWLCase(r *gen.R, o wlOpts) WLCase {
 		w.SepKind = "user"
 		w.UserSeps = [][]string{{"", "¡"}, {"-", "", "--"}, {"語", ""}, {"", ""}, {"::"}, {"a", "🙂🙂", ""}}[r.Intn(6)]
 		w.UserEnt = []float32{0, 1, 2.5}[r.Intn(3)]
+	}
+	if w.SepKind != "char" && r.Chance(1, 4) {
+		w.SepChar = []string{"#", "/", "語"}[r.Intn(3)] // SeparatorChar set as well: ignored, because SeparatorFunc is not nil
 	}
 	return w
 }
